@@ -577,6 +577,15 @@ func (e *Exec) knownCall(fr *Frame, st *State, x *ssa.Call, callee *ssa.Function
 	case "strings.ToLower", "strings.ToUpper", "strings.TrimSpace", "strings.Title":
 		r := e.fresh(SInt, "str")
 		a := e.term(fr, st, x.Call.Args[0])
+		if full == "strings.ToLower" || full == "strings.ToUpper" {
+			// a pure function of the string value (uninterpreted; tolower / toupper in contract clauses)
+			f := "str_" + strings.ToLower(callee.Name())
+			if !e.declared[f] {
+				e.declared[f] = true
+				e.emit("(declare-fun %s (Int) Int)", f)
+			}
+			r = e.def(SInt, App(SInt, f, a))
+		}
 		if full == "strings.TrimSpace" {
 			e.assume(st.pc, And(Le(IntLit(0), App(SInt, "slen", r)), Le(App(SInt, "slen", r), App(SInt, "slen", a))))
 		} else {
